@@ -94,6 +94,13 @@ def _shard_worker(pid, tier, seed, idx, n, total, scratch, shard_timeout):
         out = os.path.join(scratch, "s%d-%d.jsonl" % (idx, attempt))
         rc, err = _run_shard_proc(pid, tier, seed, idx, n, start, out, shard_timeout)
         recs = _read_jsonl(out)
+        note = None
+        try:
+            with open(out + ".note", encoding="utf8", errors="replace") as nf:
+                note = nf.read()
+            os.unlink(out + ".note")
+        except OSError:
+            pass
         try:
             os.unlink(out)
         except OSError:
@@ -118,7 +125,18 @@ def _shard_worker(pid, tier, seed, idx, n, total, scratch, shard_timeout):
             break
         # the process died or was stopped while a case was running
         if begun is not None:
-            incon.append({"reason": "case killed the shard (rc=%s)" % rc, "pos": begun, "stderr": err[-1500:]})
+            # a check may say that a case which never came back is itself what its property forbids (see on_case_killed)
+            verdict = None
+            try:
+                mod = load_check(pid)
+                if hasattr(mod, "on_case_killed"):
+                    verdict = mod.on_case_killed(rc, err, note)
+            except Exception:
+                verdict = None
+            if verdict:
+                records.append({"t": "case", "pos": begun, "i": idx + begun * n, "violations": [verdict], "evaluations": 0, "counters": {"cases_that_never_returned": 1}})
+            else:
+                incon.append({"reason": "case killed the shard (rc=%s)" % rc, "pos": begun, "stderr": err[-1500:]})
             start = begun + 1
         else:
             incon.append({"reason": "shard ended early (rc=%s)" % rc, "pos": done_pos, "stderr": err[-1500:]})
